@@ -98,11 +98,11 @@ func getArrayPrototype() *Value {
 					}
 
 					for _, item := range this.Array {
-						comp, err := v[0].Compare(&item.Value)
+						equal, err := item.Value.Equals(v[0])
 						if err != nil {
 							return nil, err
 						}
-						if comp == 0 {
+						if equal {
 							retVal := NewValue(true)
 							return &retVal, nil
 						}
